@@ -41,6 +41,41 @@ CLAIMS = {
             '[-pi,pi] in doubles -- those are a soak test reported in the evidence, never counted as obligations.',
             AX + TR + 'Float drift is tested, not proved.',
             'Coq proof (invariant by induction over operation chains) + PrimFloat correspondence + soak test for rounding'),
+    'C13': ('proof',
+            'Theorems C13_roundtrip, C13_cycles, C13_refuses, C13_unpack_pack (coq/props/C13.v) over the hand-written executable model '
+            'lib/G2OModel.v of Graph.to_g2o / from_g2o (real text lines, prefix dispatch in the code order, tokenisation, triangular packing, '
+            'parameter dictionary): for ALL well-formed expressible graphs import(render(export g)) = canon g with no warning, canon is '
+            'idempotent, export succeeds exactly on the expressible graphs and every inexpressible cause is an error. Numbers are opaque atoms; '
+            'str()/float()/int() are a trusted oracle stated as Section hypotheses and validated on every run. Tied to the code by a bitwise '
+            'correspondence (model evaluated inside Coq vs files written / graphs read by the implementation). chi2 equality after a cycle is '
+            'checked by the oracle only; the quaternion-sign chi2 change is a recorded known finding.',
+            'Trusted: Coq kernel (all C13 theorems closed under the global context, no axioms); hypotheses parse(print x)=x, int(str i)=i, tokens '
+            'whitespace-free, wrap/normq idempotent (validated by the harness; normq only to 1-2 ulp in doubles); hand model validated by correspondence, not verified.',
+            'Coq proof over hand-written model + exact token-level correspondence'),
+    'C14': ('proof',
+            'Theorems C14_one_object_per_line, C14_fields, C14_skip, C14_prefix_disjoint, C14_ws (coq/props/C14.v) over lib/G2OModel.v: each '
+            'supported line yields exactly one object carrying exactly the tokens of that line, information unpacked symmetrically, landmark '
+            'offsets resolved with the parameter dictionary as of that line, blank lines skipped silently and unrecognised lines skipped with one '
+            'warning without affecting any other line, tags pairwise non-prefixes, whitespace runs ignored -- for all line lists (induction). '
+            'Tied to the code by running the model inside Coq on generated files vs Graph.from_g2o and all five loaders.',
+            'Trusted: Coq kernel (closed under the global context); float()/int() answers supplied by Python as tables (oracle); hand model validated by correspondence.',
+            'Coq proof over hand-written model + exact correspondence on generated files'),
+    'C17': ('proof',
+            'Theorems C17_total, C17_iff, C17_refl, C17_near, C17_far, C17_structural (coq/props/C17.v) over the hand-written model '
+            'lib/EqualsModel.v of the five equals methods with Python failure modes explicit (VRaise): for all well-formed poses, vertices, '
+            'edges and graphs equals never raises, is True iff structures match and every array pair passes the code test, True below tol^2, False '
+            '(both directions) above tol*(max norm+tol) and for any structural difference; graph lifting by induction over the zipped lists. '
+            'The sqrt-free rational instance executed in the correspondence is proved equal to the real instance (C17_executed_model_is_real_model).',
+            AX + 'hand model validated by an exhaustive correspondence over object shapes (thorough: all 1134^2 edge-shape pairs); numpy norm/shape/broadcast semantics assumed; reals only (no NaN).',
+            'Coq proof over hand-written model + exhaustive verdict correspondence'),
+    'C18': ('proof',
+            'Theorems C18_binding, C18_binding_order_independent, C18_unknown_id, C18_iff, C18_inconsistent_rejected, C18_consistent_sound_* '
+            '(coq/props/C18.v) over lib/ValidModel.v (Graph._initialize, _is_valid, EdgeOdometry/EdgeLandmark.is_valid): construction succeeds iff all '
+            'ids are known and every edge is consistent with a declarative specification written independently of is_valid; consistent edges '
+            'compute without raising and with conforming shapes according to the REGENERATED pose dispatch tables (finite kind space, proof by '
+            'computation lifted with forallb). Correspondence: thorough tier enumerates the full cross product of the quantifier (1.1e6 constructions).',
+            'Trusted: Coq kernel (closed under the global context); hand model validated by exhaustive correspondence; dict-overwrite and isinstance semantics assumed; python -O (assert stripped) outside the quantifier.',
+            'Coq proof over hand-written model and regenerated dispatch tables + exhaustive correspondence'),
 }
 
 PENDING = {}
